@@ -356,7 +356,7 @@ PROPS = {
             {"engine": "E2", "module": "lib", "harness": "h_cleanup_unit_chain", "functions": ["cleanup::compu_methods::remove_unused_sub_elements"],
              "bound": "REF_UNIT chains of length 0..=5, anchored in a used COMPU_METHOD or not, defined front-to-back or back-to-front; cleanup applied twice", "timeout": 200, "extra_modules": ["tokenizer"]},
             {"engine": "E2", "module": "lib", "harness": "h_cleanup_function_chain", "functions": ["A2lFile::cleanup", "cleanup::functions::cleanup", "cleanup::functions::get_used_functions"],
-             "bound": "SUB_FUNCTION chains of 1..=3 FUNCTIONs x user position or none x user site {MEASUREMENT, CHARACTERISTIC, AXIS_PTS, GROUP FUNCTION_LIST} x last function with / without members (72 modules); cleanup twice", "timeout": 300, "extra_modules": ["tokenizer"], "must_cover": ["cleanup_function_chain_end"]},
+             "bound": "SUB_FUNCTION chains of 1..=3 FUNCTIONs x user position or none x user site {MEASUREMENT, CHARACTERISTIC, AXIS_PTS, GROUP FUNCTION_LIST} x last function without members / with members / with references to objects that do not exist (108 modules); cleanup twice", "timeout": 300, "extra_modules": ["tokenizer"], "must_cover": ["cleanup_function_chain_end"]},
             {"engine": "E2", "module": "lib", "harness": "h_cleanup_group_chain", "functions": ["A2lFile::cleanup", "cleanup::groups::cleanup", "cleanup::groups::delete_empty_groups", "cleanup::groups::get_used_groups"],
              "bound": "SUB_GROUP chains of 1..=3 GROUPs, USER_RIGHTS naming any position or none, last group with / without members (18 modules); cleanup twice", "timeout": 300, "extra_modules": ["tokenizer"], "must_cover": ["cleanup_group_chain_end"]},
         ],
